@@ -51,7 +51,8 @@ manifest = {
              "outside the understood fragment (fail closed, never a VIOLATION). known_findings.json lists genuine "
              "defects (known) and repaired ones (fixed). The thorough tier adds the checker self-test: catalogued mutants "
              "(pgverif/selftest_catalogue) and the stored sub-agent changes (/verif/seeded) are applied to a scratch copy "
-             "of <root>/src under the system temp directory and must be reported; equivalents must stay silent; a miss is "
+             "of <root>/src under the system temp directory and must be reported; catalogued equivalents and the stored "
+             "behaviour-preserving refactorings (/verif/equivalents) must stay silent; a miss or a false alarm there is "
              "ANALYSIS-ERROR (exit 2). C20 uses the installed CoolProp fluid table (via /venv/bin/python, no pygaps import) "
              "as the reference for shipped constants. DESIGN.md section 9 is the as-built description.",
 }
